@@ -41,7 +41,13 @@ const (
 	NativeNoEvents   = "nnoevents"   // native only: return an Execution built by hand, without Events
 	SetCycle         = "setcycle"    // A=key: bind a self-referential object (js only)
 	Raw              = "raw"         // A = ECMAScript statements (js only; not modelled)
+	RejectUnless     = "rejunless"   // A=key V=value: return null unless bindings[A] equals V (a guard that looks at its candidate)
+	ThrowIf          = "throwif"     // A=key V=value: fail if bindings[A] equals V
 )
+
+// Trace, when non-nil, receives the canonical JSON of the bindings every native action or guard is called
+// with, in call order (the harness learns the order in which the engine offered candidates to a guard).
+var Trace *[]string
 
 type Op struct {
 	K string      `json:"k"`
@@ -104,6 +110,10 @@ func (p *Prog) JS() string {
 			fmt.Fprintf(&b, "_.out(%s);\n", js(o.V))
 		case Throw:
 			b.WriteString("throw \"boom\";\n")
+		case RejectUnless:
+			fmt.Fprintf(&b, "if (JSON.stringify(bs[%s]) !== %s) { return null; }\n", js(o.A), js(js(o.V)))
+		case ThrowIf:
+			fmt.Fprintf(&b, "if (JSON.stringify(bs[%s]) === %s) { throw \"boom\"; }\n", js(o.A), js(js(o.V)))
 		case RetNull:
 			b.WriteString("return null;\n")
 		case RetScalar:
@@ -159,6 +169,9 @@ func (p *Prog) JS() string {
 func (p *Prog) NativeAction() core.Action {
 	ops := p.Ops
 	return &core.FuncAction{F: func(ctx context.Context, in match.Bindings, props core.StepProps) (*core.Execution, error) {
+		if Trace != nil {
+			*Trace = append(*Trace, js(map[string]interface{}(in)))
+		}
 		w := in.Copy()
 		if in == nil {
 			w = match.NewBindings()
@@ -176,6 +189,15 @@ func (p *Prog) NativeAction() core.Action {
 				exe.AddEmitted(o.V)
 			case Throw:
 				return nil, errors.New("boom")
+			case RejectUnless:
+				if js(w[o.A]) != js(o.V) {
+					exe.Bs = nil
+					return exe, nil
+				}
+			case ThrowIf:
+				if js(w[o.A]) == js(o.V) {
+					return nil, errors.New("boom")
+				}
 			case NativeErrPartial:
 				exe.Bs = w
 				return exe, errors.New("boom")
@@ -301,6 +323,14 @@ func (p *Prog) Model(bs map[string]interface{}) Result {
 			out = append(out, clone(o.V))
 		case Throw, RetScalar, RetArray, Spin, RetGetter:
 			return Result{Err: true}
+		case RejectUnless:
+			if js(w[o.A]) != js(o.V) {
+				return Result{Bs: nil, Emitted: out}
+			}
+		case ThrowIf:
+			if js(w[o.A]) == js(o.V) {
+				return Result{Err: true}
+			}
 		case NativeNoEvents:
 			return Result{Bs: restore(w), Emitted: nil}
 		case NativeErrPartial:
